@@ -23,7 +23,7 @@ func init() {
 	vc.Register(&vc.Check{
 		ID:    "C25",
 		Level: "exploration",
-		Rule: "cases: every request script of the C24 alphabet (see C24) with every reply header's Seq checked against the requests already written and record bodies against the stream they belong to; schedules: all executions within the deviation bound (quick 3, thorough 4) of (a) a real IPC eventStream fed by a producer thread with 4 events (member, user x2, query; one more than the filter admits) for 5 filter specs, plus one run crossing the 512-entry buffer, (b) a real agent fanning 3 events out to 3 permanently registered handlers while other handlers (streams) are registered and deregistered, and (c) the real queryResponseStream.Stream on a real Serf.Query result while a network thread delivers acks/responses and virtual time runs serf's close timer and the stream's done timer (both explorable); non-trivial = at least one non-default choice / a script with >=2 reply headers",
+		Rule: "cases: every request script of the C24 alphabet (see C24) with every reply header's Seq checked against the requests already written and record bodies against the stream they belong to; schedules: all executions within the deviation bound (quick 3, thorough 4) of (a) a real IPC eventStream fed by a producer thread with 4 events (member, user x2, query; one more than the filter admits) for 5 filter specs (and, at a bound two lower, 8 specs that combine entries: one type bare and named, two names, duplicates, the catch-all next to a name), plus one run crossing the 512-entry buffer, (b) a real agent fanning 3 events out to 3 permanently registered handlers while other handlers (streams) are registered and deregistered, and (c) the real queryResponseStream.Stream on a real Serf.Query result while a network thread delivers acks/responses and virtual time runs serf's close timer and the stream's done timer (both explorable); non-trivial = at least one non-default choice / a script with >=2 reply headers",
 		Assumptions: []string{
 			"the stream's client is a recording harness object (Send is atomic)",
 			"replies reach the node serially; virtual time",
@@ -41,6 +41,12 @@ func c25run(ctx *vc.Ctx) {
 	}
 	for _, spec := range []string{"*", "user:deploy", "member-join", "query:load", "user,member-failed"} {
 		c25events(ctx, spec, bound)
+	}
+	// combinations of entries within one filter: the same type bare and named, two names of one
+	// type, a duplicate entry, the catch-all next to a named entry, named entries of two types
+	for _, spec := range []string{"user:deploy,user", "user,user:other", "query,query:load", "query:other,query", "user:deploy,user:other", "member-join,member-join",
+		"*,user:deploy", "user:nope,query:load,member-failed"} {
+		c25events(ctx, spec, bound-2)
 	}
 	if ctx.Shard == 0 || ctx.Replay != nil {
 		c25overflow(ctx)
